@@ -589,6 +589,9 @@ func TestVerifStorm(t *testing.T) {
 		t.Skip("driver: VERIF_OUT not set")
 	}
 	rounds := cEnvInt("VERIF_ROUNDS", 400)
+	if os.Getenv("VERIF_STORM_PART") == "collide" {
+		rounds = 0 // only the colliding first announcements
+	}
 	cache := GetCache("")
 	exps := []net.IP{net.ParseIP("10.9.8.7"), {10, 9, 8, 7}, net.ParseIP("10.9.8.8"), net.ParseIP("2001:db8::5")}
 	var inside int64
@@ -689,6 +692,57 @@ func TestVerifStorm(t *testing.T) {
 	}
 	finished := make(chan struct{})
 	go func() { wg.Wait(); close(finished) }()
+	// two exporters whose (address, template id) pairs share one cache key announce their templates for the first time at
+	// the same moment, on a fresh cache, again and again: afterwards both are known
+	lost, pairs := 0, 0
+	{
+		// (the pair is searched by the harness: FNV-1 meet-in-the-middle, harness/fnv.py; VERIF_COLLIDE = "o.o.o...;o.o.o...;id")
+		var a1, a2 net.IP
+		id1, id2 := 0, 0
+		if parts := strings.Split(os.Getenv("VERIF_COLLIDE"), ";"); len(parts) == 3 {
+			ip := func(s string) net.IP {
+				var out net.IP
+				for _, o := range strings.Split(s, ".") {
+					v, _ := strconv.Atoi(o)
+					out = append(out, byte(v))
+				}
+				return out
+			}
+			a1, a2 = ip(parts[0]), ip(parts[1])
+			id1, _ = strconv.Atoi(parts[2])
+			id2 = id1
+			probe := GetCache("")
+			_, k1 := probe.getShard(uint16(id1), a1)
+			_, k2 := probe.getShard(uint16(id2), a2)
+			if k1 != k2 {
+				id1 = 0 // not a colliding pair after all: reported as "no rounds"
+			}
+		}
+		if id1 != 0 && os.Getenv("VERIF_STORM_PART") != "stall" {
+			n := cEnvInt("VERIF_COLLIDE_ROUNDS", 20000)
+			for r := 0; r < n; r++ {
+				c := GetCache("")
+				start := make(chan struct{})
+				var w2 sync.WaitGroup
+				for _, e := range []net.IP{a1, a2} {
+					w2.Add(1)
+					go func(e net.IP) {
+						defer w2.Done()
+						<-start
+						NewDecoder(e, cTplMsg(id1, 60)).Decode(c)
+					}(e)
+				}
+				close(start)
+				w2.Wait()
+				_, ok1 := c.retrieve(uint16(id1), a1)
+				_, ok2 := c.retrieve(uint16(id2), a2)
+				pairs++
+				if !ok1 || !ok2 {
+					lost++
+				}
+			}
+		}
+	}
 	stuck := 0
 	select {
 	case <-finished:
@@ -698,6 +752,6 @@ func TestVerifStorm(t *testing.T) {
 			stuck = -1
 		}
 	}
-	b, _ := json.Marshal(map[string]interface{}{"stuck": stuck, "rounds": rounds})
+	b, _ := json.Marshal(map[string]interface{}{"stuck": stuck, "rounds": rounds, "collide_rounds": pairs, "collide_lost": lost})
 	ioutil.WriteFile(out, b, 0644)
 }
